@@ -252,8 +252,13 @@ class Printer(PrinterBase):
 
     def make_constant(self, like, value):
         typ = self.get_type(like)
+        special = {"inf": "numpy.inf", "-inf": "-numpy.inf", "nan": "numpy.nan"}
+        if isinstance(value, (complex, numpy.complexfloating)):
+            # str(complex) loses signed zeros ((-1-0j) evaluates to -1+0j) and spells infinities as infj
+            re, im = (special.get(str(float(v)), str(float(v))) for v in (value.real, value.imag))
+            return f"{typ}(complex({re}, {im}))"
         s = str(value)
-        s = {"inf": "numpy.inf", "-inf": "-numpy.inf", "nan": "numpy.nan"}.get(s, s)
+        s = special.get(s, s)
         return f"{typ}({s})"
 
     def make_argument(self, arg):
